@@ -47,6 +47,7 @@ type Stats struct {
 	SolverErrors                                         []string
 	Steps                                                int64
 	DomainDecisions, DomainRechecks, DomainDisagreements int
+	DomainRefinements                                    int
 	Restarts                                             int
 }
 
@@ -119,6 +120,7 @@ func RunJobs(p *Program, jobs []*Job, n int, backend string, wantFixtures bool, 
 			stats.DomainDecisions += w.DomainDecisions
 			stats.DomainRechecks += w.DomainRechecks
 			stats.DomainDisagreements += w.DomainDisagreements
+			stats.DomainRefinements += w.DomainRefinements
 			mu.Unlock()
 		}(wi)
 	}
